@@ -265,3 +265,111 @@ func VerifC18Decimal() {
 	err := blk.DecodeRawBlock(NewReader(bytes.NewReader(w.b)), 54460, Results{{Name: "a", Data: mk[k]()}})
 	verifAssert((err == nil) == (k == class), "decimal-binds-only-to-its-class")
 }
+
+// kinds for block sequences: pairs that share a base type but differ in a parameter or element
+var vSeqKinds = []vSrvKind{
+	{"UInt8", vRawCells(1)},          // 0
+	{"Array(UInt8)", vSrvKinds[8].cell}, // 1
+	{"Array(UInt64)", func(b *refBuf, rows int) { // 2
+		for i := 0; i < rows; i++ {
+			b.u64(uint64(i + 1))
+		}
+		b.b = append(b.b, verifBytes("cell", 8*rows)...)
+	}},
+	{"Array(String)", func(b *refBuf, rows int) { // 3
+		for i := 0; i < rows; i++ {
+			b.u64(uint64(i + 1))
+		}
+		for i := 0; i < rows; i++ {
+			b.u8(1)
+			b.u8(verifU8("cell"))
+		}
+	}},
+	{"Nullable(UInt8)", vSrvKinds[9].cell}, // 4
+	{"Nullable(UInt32)", func(b *refBuf, rows int) { // 5
+		for i := 0; i < rows; i++ {
+			n := verifU8("null")
+			verifAssume(n <= 1)
+			b.u8(n)
+		}
+		b.b = append(b.b, verifBytes("cell", 4*rows)...)
+	}},
+	{"FixedString(1)", vRawCells(1)},            // 6
+	{"FixedString(2)", vRawCells(2)},            // 7
+	{"DateTime64(3)", vRawCells(8)},             // 8
+	{"DateTime64(6)", vRawCells(8)},             // 9
+	{"Decimal(9, 2)", vRawCells(4)},             // 10
+	{"Decimal(18, 2)", vRawCells(8)},            // 11
+	{"Enum8('a'=1,'b'=2)", vSrvKinds[4].cell},   // 12
+	{"Enum8('x'=1,'y'=2)", vSrvKinds[4].cell},   // 13
+	{"Enum16('a'=1,'b'=2)", func(b *refBuf, rows int) { // 14
+		for i := 0; i < rows; i++ {
+			v := verifU8("cell")
+			verifAssume(vOr(v == 1, v == 2))
+			b.u8(v)
+			b.u8(0)
+		}
+	}},
+	{"DateTime", vRawCells(4)},            // 15
+	{"DateTime('UTC')", vRawCells(4)},     // 16
+	{"String", vSrvKinds[3].cell},         // 17
+}
+
+// VerifC18AutoSequence: two blocks with (possibly) different schemas against the same
+// auto-inferred target: the second block is either rejected, or the target then is what a fresh
+// target bound to the second block's type is - same column type with the same parameters,
+// holding exactly the second block's cells.
+func VerifC18AutoSequence() {
+	version := 54460
+	s1 := verifChoice("first", len(vSeqKinds))
+	s2 := verifChoice("second", len(vSeqKinds))
+	rows := verifIntRange("rows", 0, 1)
+	mk := func(k int, rows int) (blk, cells []byte) {
+		var w, c refBuf
+		w.vint(1)
+		w.vint(rows)
+		w.str("v")
+		w.str(vSeqKinds[k].typ)
+		w.u8(0)
+		if rows > 0 {
+			vSeqKinds[k].cell(&c, rows)
+		}
+		w.b = append(w.b, c.b...)
+		return w.b, c.b
+	}
+	b1, _ := mk(s1, 1)
+	b2, cells2 := mk(s2, rows)
+	res := Results{AutoResult("v")}
+	var blk Block
+	if err := blk.DecodeRawBlock(NewReader(bytes.NewReader(b1)), version, res); err != nil {
+		verifNote("first-type-not-inferable")
+		return
+	}
+	fresh := Results{AutoResult("v")}
+	var blk2 Block
+	ferr := blk2.DecodeRawBlock(NewReader(bytes.NewReader(b2)), version, fresh)
+	if ferr != nil {
+		// not every type is inferable (FixedString(N) is not): nothing to compare against
+		verifNote("second-type-not-inferable")
+		return
+	}
+	err := blk.DecodeRawBlock(NewReader(bytes.NewReader(b2)), version, res)
+	if err != nil {
+		verifNote("second-block-rejected")
+		verifAssert(s1 != s2, "same-schema-rejected")
+		return
+	}
+	verifNote("second-block-accepted")
+	got, want := res[0].Data.(*ColAuto), fresh[0].Data.(*ColAuto)
+	verifAssert(got.Data.Type() == want.Data.Type(), "rebound-column-type-and-parameters")
+	verifAssert(got.Rows() == rows, "rebound-rows")
+	verifAssert(vBytesEq(vEncodeTarget(got.Data.(ColResult)), cells2), "rebound-target-holds-second-block")
+	if e, ok := got.Data.(*ColEnum); ok && rows > 0 {
+		w := want.Data.(*ColEnum)
+		verifAssert(vStrEq(e.Row(0), w.Row(0)), "rebound-enum-names")
+	}
+	if d, ok := got.Data.(*ColDateTime64); ok && rows > 0 {
+		w := want.Data.(*ColDateTime64)
+		verifAssert(d.PrecisionSet == w.PrecisionSet && d.Precision == w.Precision, "rebound-datetime64-precision")
+	}
+}
